@@ -45,16 +45,16 @@ SIG_U = "C31 concurrent administrators -> history violates the reference and no 
 
 
 def parse_candidate(trace_text):
-    """TLC error trace -> (init map, [(op, n, v, out)])."""
+    """TLC error trace -> (init map, [(op, n, v, out)]).  TLC wraps long records over several lines."""
     init = None
+    m = re.search(r"pactive = \[(.*?)\]", trace_text, re.S)
+    if m:
+        init = {x.group(1): int(x.group(2)) for x in re.finditer(r'(\w+) \|-> (\d+)', m.group(1))}
     ops = []
-    for line in trace_text.splitlines():
-        if init is None and "pactive = [" in line:
-            init = {m.group(1): int(m.group(2)) for m in re.finditer(r'(\w+) \|-> (\d+)', line)}
-        if "last = [" in line:
-            f = dict((m.group(1), m.group(2).strip('"')) for m in re.finditer(r'(\w+) \|-> ("[^"]*"|\w+)', line))
-            if f.get("op") and f["op"] != "init":
-                ops.append((f["op"], f["n"], int(f["v"]), f["out"]))
+    for m in re.finditer(r"last =\s*\[(.*?)\]", trace_text, re.S):
+        f = dict((x.group(1), x.group(2).strip('"')) for x in re.finditer(r'(\w+) \|-> ("[^"]*"|\w+)', m.group(1)))
+        if f.get("op") and f["op"] != "init":
+            ops.append((f["op"], f["n"], int(f["v"]), f["out"]))
     return init, ops
 
 
@@ -107,7 +107,7 @@ def judge_histories(ctx, names, nv, hs, cov, synthetic=()):
     return acc_p, acc_a, acc_s
 
 
-def run(ctx):
+def _run(ctx):
     import vlib
     thorough = ctx.thorough
     rng = random.Random(ctx.seed)
@@ -327,3 +327,16 @@ def run(ctx):
             "corrupted_history_rejected_by_reference", "corrupted_history_rejected_by_step_model"]
     if not all(selftest.get(k) for k in want):
         raise vlib.Inconclusive("binding self-test failed: %s" % selftest)
+
+
+def run(ctx):
+    """A violation already observed on the real code stands even when a later stage cannot be completed (e.g. the driver of
+    the next stage dies on the same defect): the later failure is recorded as a note instead of turning the verdict into
+    INCONCLUSIVE."""
+    import vlib
+    try:
+        _run(ctx)
+    except vlib.Inconclusive as e:
+        if not ctx.violations:
+            raise
+        ctx.notes.append("a later stage was inconclusive after violations had been observed: %s" % str(e)[:600])
